@@ -56,6 +56,32 @@ def cases_C13(rng, tier):
         if len(lines[-1].rstrip(b"=")) < 2 or len(lines) < 6:
             continue
         out.append(("base64", "find_base64", sep.join(lines), ("", p, "encoding.base64")))  # line breaks and their HTML escapes are ignored
+    # bare carriage returns as line breaks (the pattern allows \r?\n?): ignored like the other breaks, whatever their number
+    for p in payloads(rng, n // 4, 30, 60):
+        e = base64.b64encode(p)
+        if not b64_acceptable(e):
+            continue
+        for w in (7, 10, 19):
+            lines = [e[k : k + w] for k in range(0, len(e), w)]
+            if len(lines[-1].rstrip(b"=")) >= 2 and len(lines) >= 3:
+                out.append(("base64", "find_base64", b"\r".join(lines), ("", p, "encoding.base64")))
+    # boundary of the `more than six distinct characters` rule: seven distinct characters, one of them the padding
+    found = 0
+    for _ in range(20000):
+        if found >= 3:
+            break
+        alpha = rng.sample(list(b"ABCDEFGHIJKLMNOPQRSTUVWXYZabcdefghijklmnopqrstuvwxyz0123456789+"), 6)
+        body = bytes(rng.choice(alpha) for _c in range(22)) + b"=="
+        if len(set(body)) != 7:
+            continue
+        try:
+            p = base64.b64decode(body, validate=True)
+        except Exception:  # noqa: BLE001
+            continue
+        e = base64.b64encode(p)
+        if e == body and b64_acceptable(e):
+            out.append(("base64", "find_base64", e, ("", p, "encoding.base64")))
+            found += 1
     for p in payloads(rng, n, 1, 20):
         e = base64.b64encode(p)
         out.append(("base64", "find_atob", b"atob('" + e + b"')", ("javascript.string", p, "encoding.base64")))
@@ -68,6 +94,9 @@ def cases_C13(rng, tier):
         out.append(("hex", "find_hex", h, ("", p, "decoded.hexadecimal")))
         out.append(("hex", "find_hex", h.upper(), ("", p, "decoded.hexadecimal")))
         out.append(("hex", "find_FromHexString", b"FromHexString('" + h + b"')", ("powershell.bytes", p, "encoding.hexidecimal")))
+    # hexadecimal runs that happen to contain no letter (ASCII digits, BCD-like bytes) are hexadecimal all the same
+    for p in (b"0123456789", b"\x12\x34\x56\x78\x90\x11\x22\x33\x44\x55\x66", bytes(rng.choice(b"\x10\x25\x31\x47\x58\x69\x70\x83\x92\x04") for _c in range(14))):
+        out.append(("hex", "find_hex", binascii.hexlify(p), ("", p, "decoded.hexadecimal")))
     return out
 
 
